@@ -1,4 +1,4 @@
-CONSTANTS MaxK = 9 Values = {1} Codes = {1} Scope = "all" Mutant = "none"
+CONSTANTS MaxK = 9 Values = {1} Codes = {1} Insts = {1} Scope = "all" Mutant = "none"
 SPECIFICATION TSpec
 CONSTRAINT Progress
 INVARIANT Inv_Reject
